@@ -80,7 +80,8 @@ def counts(body, path=None):
         if t["k"] == "call":
             k = _kind_of(t["callee"])
             if k and ((k, t["callee"]["name"]) in TABLE or (k, t["callee"]["name"]) in SIMPLE or t["callee"]["path"] == TRANSPOSE or k in ("bool", "Iterator")
-                      or (k, t["callee"]["name"]) in (("Option", "filter"), ("Option", "map_or"), ("Result", "map_or"))):
+                      or (k, t["callee"]["name"]) in (("Option", "filter"), ("Option", "map_or"), ("Result", "map_or"), ("Result", "inspect_err"), ("Result", "inspect"),
+                                                      ("Option", "inspect"))):
                 key = k + "::" + t["callee"]["name"]
                 out[key] = out.get(key, 0) + 1
     return out
@@ -335,6 +336,34 @@ def desugar_map_or(bodies, path, body, bb, kind):
     return True
 
 
+def desugar_inspect(bodies, path, body, bb, kind):
+    """r.inspect_err(f) == { if let Err(e) = &r { f(e) }; r }   (inspect: the Ok / Some side)"""
+    t = body["blocks"][bb]["term"]
+    r = _bare(t["args"][0]) if len(t["args"]) == 2 else None
+    if r is None or t.get("target") is None or t["dest"]["p"]:
+        return False
+    c, cp, clo = _closure_arg(bodies, body, t["args"][1], 2)
+    if clo is None:
+        return False
+    span, target, unwind, dest = t.get("span"), t["target"], t.get("unwind"), t["dest"]
+    hit = "Err" if t["callee"]["name"] == "inspect_err" else ("Ok" if kind == "Result" else "Some")
+    variants = {"0": "None", "1": "Some"} if kind == "Option" else {"0": "Ok", "1": "Err"}
+    jb = _new_block(body, [{"k": "assign", "place": copy.deepcopy(dest), "rv": {"use": {"move": {"l": r, "p": []}}}, "span": span, "desugared": "inspect"}],
+                    {"k": "goto", "target": target, "span": span})
+    xr = _new_local(body, clo["locals"][2]["ty"])
+    ul = _new_local(body, "()")
+    stmts = [{"k": "assign", "place": {"l": xr, "p": []}, "rv": {"ref": _payload(r, hit), "mut": False, "fake": False}, "span": span, "desugared": "payload"}]
+    cb = _call_closure(bodies, body, stmts, c, cp, clo, [{"move": {"l": xr, "p": []}}], {"l": ul, "p": []}, jb, unwind, span, "inspect")
+    dl = _new_local(body, "isize")
+    body["blocks"][bb]["stmts"].append({"k": "assign", "place": {"l": dl, "p": []}, "rv": {"discr": {"l": r, "p": []}, "ty": body["locals"][r]["ty"], "variants": variants},
+                                        "span": span, "desugared": "inspect"})
+    # the untouched side gets a block of its own, so that "r is Ok" has an edge to live on
+    pb = _new_block(body, [], {"k": "goto", "target": jb, "span": span})
+    body["blocks"][bb]["term"] = {"k": "switch", "on": {"move": {"l": dl, "p": []}}, "on_ty": "isize", "targets": [[VI[hit], cb]], "otherwise": pb, "span": span,
+                                  "desugared": t["callee"]["path"]}
+    return True
+
+
 def desugar_filter(bodies, path, body, bb):
     """o.filter(p) == match o { Some(x) if p(&x) => Some(x), _ => None }"""
     t = body["blocks"][bb]["term"]
@@ -378,6 +407,8 @@ def desugar_call(bodies, path, body, bb):
         return desugar_filter(bodies, path, body, bb)
     if t["callee"]["name"] == "map_or" and kind in ("Option", "Result"):
         return desugar_map_or(bodies, path, body, bb, kind)
+    if t["callee"]["name"] in ("inspect_err", "inspect") and kind in ("Option", "Result"):
+        return desugar_inspect(bodies, path, body, bb, kind)
     spec = TABLE.get((kind, t["callee"]["name"]))
     if spec is None or len(t["args"]) != 2 or t.get("target") is None or t["dest"]["p"]:
         return False
@@ -653,7 +684,8 @@ def apply(raw, changed, ref_counts):
                     continue
                 k = _kind_of(t["callee"])
                 if not k or ((k, t["callee"]["name"]) not in TABLE and (k, t["callee"]["name"]) not in SIMPLE and t["callee"]["path"] != TRANSPOSE
-                             and k not in ("bool", "Iterator") and (k, t["callee"]["name"]) not in (("Option", "filter"), ("Option", "map_or"), ("Result", "map_or"))):
+                             and k not in ("bool", "Iterator") and (k, t["callee"]["name"]) not in (("Option", "filter"), ("Option", "map_or"), ("Result", "map_or"),
+                                                                                                     ("Result", "inspect_err"), ("Result", "inspect"), ("Option", "inspect"))):
                     continue
                 key = k + "::" + t["callee"]["name"]
                 if ref.get(key, 0) > 0:
